@@ -123,3 +123,70 @@ proof fn lemma_encodes_gives_wf<V>(n: NfaBuilder<u8, V>, st: Seq<State>, idmap: 
     lemma_link_rank(n, st, idmap, 0);
     assert(da_ranked(st, lm, w));
 }
+
+// ---- the double array simulates the sparse NFA (standard kind): transitions and output positions commute with idmap ----
+// goto/fail transition of the sparse NFA itself
+spec fn nfa_nd<V>(n: NfaBuilder<u8, V>, s: int, c: u8) -> int
+    decreases nfa_depth(n, s)
+    when nfa_tree(n) && nfa_links(n, false) && 0 <= s < n.states@.len() && s != 1
+{
+    if nfa_edges(n, s).contains_key(c) { nfa_edges(n, s)[c] as int }
+    else if s == 0 { 0 }
+    else { nfa_nd(n, n.states@[s].fail as int, c) }
+}
+proof fn lemma_nd_range<V>(n: NfaBuilder<u8, V>, s: int, c: u8)
+    requires nfa_tree(n), nfa_links(n, false), 0 <= s < n.states@.len(), s != 1,
+    ensures 0 <= nfa_nd(n, s, c) < n.states@.len(), nfa_nd(n, s, c) != 1,
+    decreases nfa_depth(n, s),
+{
+    if nfa_edges(n, s).contains_key(c) { }
+    else if s == 0 { }
+    else { lemma_nd_range(n, n.states@[s].fail as int, c); }
+}
+// every image slot is live for every ranking witness (it is reachable from the root through array edges)
+proof fn lemma_image_live<V>(n: NfaBuilder<u8, V>, st: Seq<State>, idmap: Seq<u32>, w: Wit, s: int)
+    requires bw_encodes(st, n, idmap), nfa_tree(n), da_ranked(st, false, w), 0 <= s < n.states@.len(), s != 1,
+    ensures w.live.contains(idmap[s] as int),
+    decreases s,
+{
+    lemma_benc_basic(st, n, idmap, 0);
+    if s >= 2 {
+        let p = nfa_parent(n, s);
+        assert(nfa_parent_ok(n, s, p));
+        lemma_image_live(n, st, idmap, w, p.0);
+        lemma_benc_edge(st, n, idmap, p.0, p.1);
+        lemma_benc_basic(st, n, idmap, p.0);
+        assert(bw_child(st, idmap[p.0] as int, p.1) == Some(idmap[s]));
+        assert(w.live.contains(bw_child(st, idmap[p.0] as int, p.1).unwrap() as int));
+    }
+}
+proof fn lemma_sim_delta<V>(n: NfaBuilder<u8, V>, st: Seq<State>, idmap: Seq<u32>, s: int, c: u8)
+    requires bw_encodes(st, n, idmap), nfa_tree(n), nfa_links(n, false), da_safe(st), 0 <= s < n.states@.len(), s != 1,
+    ensures bw_wf(st, false), bw_live(st, false, idmap[s] as int),
+        bw_delta(st, idmap[s] as int, c) == idmap[nfa_nd(n, s, c)] as int,
+    decreases nfa_depth(n, s),
+{
+    lemma_encodes_gives_wf(n, st, idmap, false);
+    let w = bw_wit(st, false);
+    assert(da_ranked(st, false, w));
+    lemma_image_live(n, st, idmap, w, s);
+    lemma_benc_basic(st, n, idmap, s);
+    lemma_benc_basic(st, n, idmap, 0);
+    let x = idmap[s] as int;
+    if nfa_edges(n, s).contains_key(c) {
+        lemma_benc_edge(st, n, idmap, s, c);
+        assert(bw_child(st, x, c) == Some(idmap[nfa_edges(n, s)[c] as int]));
+    } else {
+        assert(bw_child(st, x, c).is_none()) by {
+            if bw_child(st, x, c).is_some() { assert(bw_edge(st, x, c)); lemma_benc_nospur(st, n, idmap, s, c); }
+        }
+        if s == 0 { }
+        else {
+            assert(x != 0) by { if x == 0 { lemma_benc_inj(st, n, idmap, s, 0); } }
+            let f = n.states@[s].fail as int;
+            assert(f != 1 && 0 <= f < n.states@.len());
+            lemma_sim_delta(n, st, idmap, f, c);
+            assert(st[x].fail == idmap[f]);
+        }
+    }
+}
